@@ -69,7 +69,7 @@ func (c *Ctx) errMustPropagate(rule string, fn *ssa.Function, sel func(ev *core.
 		ret := p.Results[ri]
 		for i := range p.Events {
 			ev := &p.Events[i]
-			if ev.Kind != core.EvCall || ev.Depth != 0 || !sel(ev) {
+			if ev.Kind != core.EvCall || !own(ev) || !sel(ev) {
 				continue
 			}
 			e := errOf(p.X, ev.Result)
